@@ -261,6 +261,14 @@ Theorem C15_coupling_logdet : forall (n : nat) (mask : nat -> bool) (cond : cond
                                                (vec R n (fun i => if mask i then 0%R else 1%R)) cond x)).
 Proof. exact coupling_logdet. Qed.
 
+(* additive coupling layer: unit-triangular Jacobian, reported log-det 0 *)
+Theorem C15_coupling_additive_logdet : forall (n : nat) (mask : nat -> bool) (cond : condT R)
+  (x : list R) (J : 'M[R_comRingType]_n), length x = n ->
+  (forall i j : 'I_n, is_derive (partial (cpa_map n mask cond) x i j) (List.nth j x 0%R) (J i j)) ->
+  (\det J)%R = exp (snd (Rcoupling_bwd false n (vec R n (fun i => if mask i then 1%R else 0%R))
+                                                (vec R n (fun i => if mask i then 0%R else 1%R)) cond x)).
+Proof. exact coupling_additive_logdet. Qed.
+
 (* batch normalisation in evaluation mode (running variance + eps > 0): an element-wise map, diagonal Jacobian *)
 Theorem C15_bn_logdet : forall (n : nat) (eps : R) (w b rvar rmean : list R),
   (forall i, (i < n)%coq_nat -> Rlt (IZR 0) (Rplus (List.nth i rvar (IZR 0)) eps)) ->
@@ -313,3 +321,4 @@ Print Assumptions C15_det_permutation.
 Print Assumptions C15_bn_logdet.
 Print Assumptions C15_logit_logdet.
 Print Assumptions C15_maf_logdet.
+Print Assumptions C15_coupling_additive_logdet.
